@@ -30,6 +30,13 @@ class Check:
         self.analysed["functions"].add(fn.key + fn.sig)
         self.analysed["files"].add(fn.file)
 
+    def absorb(self, sub):
+        """functions / files analysed by a shared sub-check count as analysed here"""
+        self.analysed["functions"] |= sub.analysed["functions"]
+        self.analysed["files"] |= sub.analysed["files"]
+        for a in sub.assumptions:
+            self.assume(a)
+
     def ob(self, rule, function, construct, ok, where, detail="", expected=""):
         """one obligation = one instance of a rule.  'construct' identifies the instance
         independent of line numbers (it is the key used by known_findings.json)."""
